@@ -43,6 +43,9 @@ Inductive out :=
 | OTags (d c : byte)
 | OParse (e : econf_err) (line : N)
 | OAll (l : list out)
+| ORead (e : econf_err) (valid : bool) (checked : list (str * bool)) (opened : list str)
+| OHist (e : econf_err) (files : list keyfile) (checked : list (str * bool)) (opened : list str)
+| OLoc (file : str) (line : N)
 | ONoObj.
 
 Definition store := list (nat * keyfile).
